@@ -1,6 +1,6 @@
 /-
   Props/C02BaseTreeCode.lean — C01/C02/C08 at the level of the CODE: the matcher every tree inherits from `baseTree`
-  (tree.go) — `matchLeaf`, `matchSubtree`, `matchNextSegment` — the place where the PRECEDENCE among competing routes is
+  (tree.go) — `matchLeaf`, `matchSubtree`, `matchNextSegment`, `Match` — the place where the PRECEDENCE among competing routes is
   decided: leaves in their (priority) order, first match wins; subtrees in their order, each tried to the bottom before the
   next; the match-all subtree last; then the tree's own match-all leaf.
 
@@ -16,10 +16,14 @@
     * `matchNextSegment_refines`: cutting the segment off the path and dispatching is the model's `matchNextIdx`;
     * `matchNextSegment_segments`: hence, at a cursor inside the path, the body returns what the SEGMENT-level model
       `matchNext` (Model/Tree.lean — the one C01/C02/C08's theorems are about) returns, and never runs into a panic.
+    * `Match_refines`: `baseTree.Match` — trim the leading slashes, search from the root with an empty map, then rewrite
+      every value by its percent-decoding when it has one (`unescape_loop`: in place, each exactly once — the map's names are
+      distinct, Proofs/ParamsDistinct) — is the model's `Node.match`, for every byte string.
   The receiver is never changed.
 -/
 import Flamego.Gen.BaseTreeCode
 import Flamego.Proofs.TreeIdx
+import Flamego.Proofs.ParamsDistinct
 set_option linter.unusedSimpArgs false
 set_option linter.unusedVariables false
 namespace Flamego.C02BaseTreeCode
@@ -366,6 +370,90 @@ theorem code_first_leaf_wins (t : baseTree) (pre : List Leaf) (l : Leaf) (post :
   rw [matchLeaf_refines, ht]
   simp only [matchLeavesIdx, matchLeaves_first E hok pre l post seg ps ps' hpre hl]
   rfl
+
+/-! ### Match -/
+
+open Flamego.ParamsDistinct in
+theorem mapSet_skip (pre rest : Params) (k v u : Bytes) (hk : ∀ x ∈ pre, x.1 ≠ k) :
+    GoSem.mapSet (pre ++ (k, v) :: rest) k u = pre ++ (k, u) :: rest := by
+  induction pre with
+  | nil => simp [GoSem.mapSet]
+  | cons p pre ih =>
+    have hp : (p.1 == k) = false := by simpa using hk p (by simp)
+    simp only [List.cons_append, GoSem.mapSet, hp, Bool.false_eq_true, if_false]
+    rw [ih (fun x hx => hk x (by simp [hx]))]
+
+open Flamego.ParamsDistinct in
+/-- the final loop of `Match`: every value is replaced, in place, by its percent-decoding when it has one -/
+theorem unescape_loop (body : Bytes × Bytes → Params → GoSem.Ctl (Lib.Leaf × Params × Bool) × Params)
+    (hb : ∀ k v ps, body (k, v) ps = (GoSem.Ctl.next,
+      if ((Lib.url_PathUnescape v).2 == 0) then GoSem.mapSet ps k (Lib.url_PathUnescape v).1 else ps))
+    (rest : Params) (pre pre' : Params) (hd : KeysDistinct (pre ++ rest)) (hk : pre'.map (·.1) = pre.map (·.1)) :
+    GoSem.forRangeCtl rest body (pre' ++ rest)
+      = (GoSem.Ctl.next, pre' ++ rest.map fun kv => (kv.1, pathUnescapeOrRaw kv.2)) := by
+  induction rest generalizing pre pre' with
+  | nil => simp [GoSem.forRangeCtl]
+  | cons kv rest ih =>
+    obtain ⟨k, v⟩ := kv
+    have hfresh : ∀ x ∈ pre', x.1 ≠ k := by
+      intro x hx
+      have hmem : x.1 ∈ pre'.map (·.1) := List.mem_map_of_mem hx
+      rw [hk] at hmem
+      obtain ⟨y, hy, e⟩ := List.mem_map.mp hmem
+      have hpw := List.pairwise_append.mp hd
+      have := hpw.2.2 y hy (k, v) (by simp)
+      rw [← e]; exact this
+    have hstep : (if ((Lib.url_PathUnescape v).2 == 0) then GoSem.mapSet (pre' ++ (k, v) :: rest) k (Lib.url_PathUnescape v).1
+        else pre' ++ (k, v) :: rest) = (pre' ++ [(k, pathUnescapeOrRaw v)]) ++ rest := by
+      cases hu : pathUnescape v with
+      | some u =>
+        simp only [Lib.url_PathUnescape, hu, beq_self_eq_true, if_true, pathUnescapeOrRaw, Option.getD_some]
+        rw [mapSet_skip pre' rest k v u hfresh]; simp
+      | none =>
+        simp [Lib.url_PathUnescape, hu, pathUnescapeOrRaw]
+    simp only [GoSem.forRangeCtl, hb, hstep]
+    rw [ih (pre ++ [(k, v)]) (pre' ++ [(k, pathUnescapeOrRaw v)]) (by simpa using hd) (by simp [hk])]
+    simp
+
+theorem splitSlash_cons (p : Bytes) : ∃ s rest, splitSlash p = s :: rest := by
+  cases h : splitSlash p with
+  | nil => exact absurd h (splitSlash_ne_nil p)
+  | cons s rest => exact ⟨s, rest, rfl⟩
+
+open Flamego.ParamsDistinct in
+/-- **`baseTree.Match` is the model's `Node.match`** (segment level): trim the leading slashes, search from the root with an
+empty map, percent-decode every value that decodes — for every tree node, every byte string -/
+theorem Match_refines (t : baseTree) (node : Node) (hs : t.subtrees = node.subs) (hl : t.leaves = node.leaves)
+    (path : Bytes) (h : Lib.Header) :
+    Match E hok t path h =
+      ((match node.match E hok path with
+        | some (l, ps) => (l, ps, true)
+        | none => ((default : Lib.Leaf), [], false)), t) := by
+  obtain ⟨s, rest, hsp⟩ := splitSlash_cons (trimLeftSlash path)
+  have htrim : Lib.strings_TrimLeft path [47] = trimLeftSlash path := by simp [Lib.strings_TrimLeft]
+  unfold Match
+  simp only [htrim]
+  have hroot := matchNextSegment_root E hok t (trimLeftSlash path) h s rest hsp
+  have h0 : ((0 : Nat) : Int) = 0 := rfl
+  rw [hroot]
+  simp only [Node.match, hsp, hs, hl]
+  have hdist := matchNext_distinct E hok node.subs node.leaves s rest [] List.Pairwise.nil
+  cases hm : matchNext E hok node.subs node.leaves s rest [] with
+  | mk ol ps =>
+    rw [hm] at hdist
+    cases ol with
+    | none => simp [tri]
+    | some l =>
+      simp only [tri, Bool.not_true, Bool.false_eq_true, if_false]
+      have hloop := unescape_loop
+        (fun (x : Bytes × Bytes) (params : Params) =>
+          ((GoSem.Ctl.next : GoSem.Ctl (Lib.Leaf × Params × Bool)),
+            if ((Lib.url_PathUnescape x.snd).snd == 0) = true then
+              GoSem.mapSet params x.fst (Lib.url_PathUnescape x.snd).fst
+            else params))
+        (fun k v ps => rfl) ps [] [] (by simpa using hdist) rfl
+      simp only [List.nil_append] at hloop
+      rw [hloop]
 
 /-! ### the definitions compute -/
 
